@@ -73,7 +73,7 @@ class Gen(object):
         pw = PROFILE_WEIGHTS.get(prop, PROFILE_WEIGHTS["default"])
         self.profile = profile or wchoice(rng, pw)
         self.pool_size = rng.choice([4, 6, 8, 12, 16, 24, 40]) if tier == "quick" else rng.choice([6, 10, 16, 24, 40, 60])
-        self.pool = lrugen.gen_pool(rng, self.profile, self.pool_size)
+        self.pool = lrugen.gen_pool(rng, self.profile, self.pool_size, huge=prop in ("C01", "C02", "C19", "C05", "C03") and rng.random() < 0.04)
         if not self.pool:
             self.pool = [b"s:http|h:com|h:a|"]
         hi = 40 if tier == "quick" else 120
@@ -122,7 +122,7 @@ class Gen(object):
         self.backend = backend or "sim"
         self.yield_every = rng.choice([None, None, None, 1, 1, 2, 7])
         # many webentities: the id counter crosses byte boundaries of its header field
-        self.wide = prop in ("C01", "C02", "C04", "C05", "C07", "C08", "C09", "C13", "C19", "C20") and rng.random() < (0.012 if tier == "quick" else 0.02)
+        self.wide = prop in ("C01", "C02", "C04", "C05", "C07", "C08", "C09", "C10", "C13", "C19", "C20") and rng.random() < (0.012 if tier == "quick" else 0.02)
         self.large = self.wide and prop in ("C01", "C04", "C05", "C07", "C08", "C13") and rng.random() < 0.25
         self.many_ids = (prop in ("C07", "C08") and rng.random() < (0.015 if tier == "quick" else 0.03)) or (prop == "C12" and rng.random() < (0.02 if tier == "quick" else 0.04)) or (prop == "C11" and rng.random() < (0.006 if tier == "quick" else 0.012))
         # swarm: in some runs the caller's input streams (add_pages / add_links arguments) fail mid-request
@@ -290,6 +290,11 @@ class Gen(object):
             return o
         if k == "create_we" and self.many_ids:
             self.many_ids = False
+            if self.prop == "C12" and r.random() < 0.04:
+                # the id counter around 2^16, then creations alternating with restarts so that one
+                # close falls exactly on the boundary
+                self.queue.extend(x for _ in range(4) for x in ({"op": "create_we", "prefixes": [enc(self.prefix())]}, {"op": "reopen"}))
+                return {"op": "create_many", "base": enc(b"s:http|h:com|h:many|"), "count": r.choice([65533, 65534, 65535]), "spread": True}
             return {"op": "create_many", "base": enc(b"s:http|h:com|h:many|"), "count": r.choice([254, 255, 256, 257, 300])}
         if k == "reopen" and self.prop in ("C12", "C11", "C06", "C04") and r.random() < 0.12:
             return {"op": "reopen_older_release"}
@@ -399,8 +404,9 @@ class Gen(object):
                 # a request that fails half-way: the new default rule does not compile
                 return {"op": "clear", "default": "broken", "rules": None}
             pending = None
-            if r.random() < 0.15:
-                # clear() arrives while a crawl-batch request is still unfinished
+            if self.prop != "C18" and r.random() < 0.15:
+                # clear() arrives while a crawl-batch request is still unfinished (not in C18's
+                # histories: what such a request wrote belongs to no completed request)
                 pending = {"data": [[enc(self.lru()), [enc(self.lru()) for _ in range(r.randint(1, 4))]] for _ in range(r.randint(1, 3))], "steps": r.randint(1, 6)}
             if r.random() < 0.3:
                 # clear() without a rules argument: the trie is emptied, the in-RAM registry is kept
